@@ -183,6 +183,19 @@ func (m *machine) intrinsic(name string, fn *ssa.Function, args []value, pos tok
 			}
 			return tup{mkInt(int64(n)), iface{}}, true
 		}
+	case "(*archive/zip.ReadCloser).Close":
+		// zip handle model (environment stub): an archive the harness's OpenReader stub registered with
+		// vZipHandle counts as an open file handle until its Close is called; a second Close reports an error
+		p, _ := args[0].(*value)
+		if p == nil || !m.zipHandles[p] {
+			break
+		}
+		m.st.fnSeen["model:archive/zip.ReadCloser handle accounting (vZipHandle; open until Close)"] = true
+		if m.openFiles[p] {
+			delete(m.openFiles, p)
+			return iface{}, true
+		}
+		return m.mkError("close: file already closed"), true
 	case "(*archive/zip.File).Open":
 		// zip content model (environment stub): a member's content is what the harness registered for its
 		// name with vZipContent; decompression, CRC and the central directory are outside the claim
@@ -730,6 +743,21 @@ func (m *machine) harnessRT(short string, fn *ssa.Function, args []value, pos to
 		return nil, true
 	case "vOpenFiles":
 		return mkInt(int64(len(m.openFiles))), true
+	case "vZipHandle":
+		ifc, _ := args[0].(iface)
+		p, _ := ifc.v.(*value)
+		if p == nil {
+			panic(abortPath{"unsupported:vZipHandle needs a non-nil *zip.ReadCloser"})
+		}
+		if m.openFiles == nil {
+			m.openFiles = map[*value]bool{}
+		}
+		if m.zipHandles == nil {
+			m.zipHandles = map[*value]bool{}
+		}
+		m.openFiles[p] = true
+		m.zipHandles[p] = true
+		return nil, true
 	}
 	return nil, false
 }
